@@ -21,7 +21,18 @@ pub struct Def { kind: K, key: usize, excl: bool, runs: Vec<Vec<Op>> }
 pub enum Top { Spawn(usize), Call(Call), Despawn(usize) }
 
 #[derive(Default)]
-struct Sh { out: Vec<String>, defs: Vec<Def>, spawned: Vec<(SysId, usize)> }
+struct Sh { out: Vec<String>, defs: Vec<Def>, spawned: Vec<(SysId, usize)>, ncalls: usize }
+
+const CAP_MAX: usize = 150;
+
+/// A call operation: skipped beyond the per-scenario cap, otherwise performed and reported.
+fn try_call(world: &mut World, c: Call)
+{
+    let capped = SH.with(|s| { let mut s = s.borrow_mut(); if s.ncalls >= CAP_MAX { true } else { s.ncalls += 1; false } });
+    if capped { log(format!("sc capped {}{}", kname(c.kind), c.key)); return }
+    let r = do_call(world, c);
+    report(c, r);
+}
 
 thread_local! { static SH: RefCell<Sh> = RefCell::new(Sh::default()); }
 fn log(l: String) { SH.with(|s| s.borrow_mut().out.push(l)); }
@@ -129,7 +140,7 @@ fn body_ordinary(kind: K, key: usize, def_key: usize, x: u32, local: &mut u32, c
         match op
         {
             Op::D(_) => log("unsupported direct call in ordinary system".into()),
-            Op::Q(call) => c.queue(move |w: &mut World| { let r = do_call(w, call); report(call, r); }),
+            Op::Q(call) => c.queue(move |w: &mut World| try_call(w, call)),
             Op::W(v) => c.queue(move |_: &mut World| log(format!("sc write {v}"))),
         }
     }
@@ -146,8 +157,8 @@ fn body_exclusive(kind: K, key: usize, def_key: usize, x: u32, local: &mut u32, 
     {
         match op
         {
-            Op::D(call) => { let r = do_call(world, call); report(call, r); }
-            Op::Q(call) => world.commands().queue(move |w: &mut World| { let r = do_call(w, call); report(call, r); }),
+            Op::D(call) => try_call(world, call),
+            Op::Q(call) => world.commands().queue(move |w: &mut World| try_call(w, call)),
             Op::W(v) => world.commands().queue(move |_: &mut World| log(format!("sc write {v}"))),
         }
     }
@@ -199,7 +210,7 @@ pub fn run(path: &str, text: &str)
                     SH.with(|s| s.borrow_mut().spawned.push((sid, *d)));
                     log(format!("sc spawned s{} def{}", id, d));
                 }
-                Top::Call(c) => { let r = do_call(&mut world, *c); report(*c, r); }
+                Top::Call(c) => try_call(&mut world, *c),
                 Top::Despawn(id) =>
                 {
                     if let Some((sid, _)) = SH.with(|s| s.borrow().spawned.get(*id).copied()) { world.despawn(sid.entity()); }
